@@ -291,7 +291,7 @@ func c15Canonical(path string) string {
 	return ""
 }
 
-var c15Alphabet = []string{"a", " ", "{", "}", `"`, "`", "\n", "/", "*", `\`, ";", "é"}
+var c15Alphabet = []string{"a", " ", "{", "}", `"`, "`", "\n", "/", "*", `\`, ";", "é", "%"}
 
 func c15Texts(maxLen int) []string {
 	out := []string{""}
@@ -487,6 +487,40 @@ func runC15(r *ev.Recorder) {
 			r.Violate(ev.Violation{Signature: "c15:file:" + problemKind(msg), What: desc + ": " + jh.Short(msg, 300), Case: ev.JSON(c15Case{Kind: "file", Heads: h, Pkgs: p, Desc: desc}), Detail: msg})
 		}
 	})
+	// the same File rendered, its settings changed, rendered again: every render must show the
+	// CURRENT canonical path and comments
+	{
+		f := jen.NewFile("p")
+		f.Var().Id("x").Op("=").Lit(1)
+		seq := []string{"", "example.com/a", "example.com/b", "", "q\"uote"}
+		for i, cp := range seq {
+			f.CanonicalPath = cp
+			if i == 2 {
+				f.PackageComment("Package p, documented late.")
+			}
+			if i == 3 {
+				f.HeaderComment("header added late")
+			}
+			got := jh.RenderFile(f)
+			fresh := jen.NewFile("p")
+			fresh.CanonicalPath = cp
+			if i >= 2 {
+				fresh.PackageComment("Package p, documented late.")
+			}
+			if i >= 3 {
+				fresh.HeaderComment("header added late")
+			}
+			fresh.Var().Id("x").Op("=").Lit(1)
+			want := jh.RenderFile(fresh)
+			r.Eval(1)
+			desc := fmt.Sprintf("render #%d of one File after CanonicalPath was set to %q", i+1, cp)
+			r.Distinct(desc)
+			if got.Key() != want.Key() {
+				r.Violate(ev.Violation{Signature: "c15:settings-changed-between-renders", What: fmt.Sprintf("%s: renders\n%s\na fresh File with the same settings renders\n%s", desc, got, want),
+					Case: ev.JSON(c15Case{Kind: "program", Desc: desc}), Detail: desc})
+			}
+		}
+	}
 	// canonical path
 	paths := []string{"", "a/b", "example.com/x y", "q\"uote", "new\nline"}
 	for _, a := range c12Units {
